@@ -56,3 +56,35 @@ Fixpoint failing (i : nat) (l : list bool) : list nat :=
   | [] => []
   | b :: t => if b then failing (S i) t else i :: failing (S i) t
   end.
+
+(* ---- server sessions with the scripted handler *)
+From Modbus Require Import Model.Server Model.ScriptHandler.
+
+Definition hkind_eqb (a b : hkind) : bool :=
+  match a, b with
+  | HCoils, HCoils | HDiscrete, HDiscrete | HHolding, HHolding | HInput, HInput => true
+  | _, _ => false
+  end.
+
+Definition hreq_eqb (a b : hreq) : bool :=
+  hkind_eqb (h_kind a) (h_kind b) && (h_unit a =? h_unit b) && (h_addr a =? h_addr b)
+  && (h_qty a =? h_qty b) && Bool.eqb (h_write a) (h_write b)
+  && bools_eqb (h_bools a) (h_bools b) && list_eqb (h_regs a) (h_regs b).
+
+Definition event_eqb (a b : event) : bool :=
+  match a, b with
+  | EvCall x, EvCall y => hreq_eqb x y
+  | EvResp x, EvResp y => list_eqb x y
+  | EvClosed, EvClosed => true
+  | _, _ => false
+  end.
+
+Fixpoint events_eqb (a b : list event) : bool :=
+  match a, b with
+  | [], [] => true
+  | x :: a', y :: b' => andb (event_eqb x y) (events_eqb a' b')
+  | _, _ => false
+  end.
+
+Definition srv_check (script : list sh_beh) (e : send) (s : list N) (expected : list event) : bool :=
+  events_eqb (sh_run script e s) expected.
